@@ -16,5 +16,5 @@ assert t!=s, "transform changed nothing"
 if crlf: t=t.replace('\n','\r\n')
 open(p,'wb').write(t.encode())
 PY
-( cd $W && diff -u a/$F b/$F > /verif/refactors/$N.patch ) || true
+( cd $W && diff -u --label a/$F --label b/$F a/$F b/$F > /verif/refactors/$N.patch ) || true
 echo "refactors/$N.patch: $(grep -c '^[-+][^-+]' /verif/refactors/$N.patch) changed lines"
